@@ -122,3 +122,46 @@ pub(crate) fn sort_jobs(
 	v.sort_by_key(|(id, _)| id.verif_order());
 	SortedJobs(v)
 }
+
+/// The worker's job map behind a guard that releases the handles in creation order when the
+/// worker's future is dropped in mid-run (a critical error elsewhere ends `main()`), instead of
+/// in hash order: the order in which job tasks are woken by their last handle going away is then
+/// a function of the run, not of the process's hash keys.
+pub(crate) struct OrderedJobs(pub(crate) std::collections::HashMap<crate::Id, watchexec_supervisor::job::Job>);
+
+impl std::ops::Deref for OrderedJobs {
+	type Target = std::collections::HashMap<crate::Id, watchexec_supervisor::job::Job>;
+	fn deref(&self) -> &Self::Target {
+		&self.0
+	}
+}
+
+impl std::ops::DerefMut for OrderedJobs {
+	fn deref_mut(&mut self) -> &mut Self::Target {
+		&mut self.0
+	}
+}
+
+impl Drop for OrderedJobs {
+	fn drop(&mut self) {
+		drop(sort_jobs(&mut self.0));
+	}
+}
+
+/// The same for an action handler that is dropped with jobs in it: abort the unadopted job tasks,
+/// then release the handles, both in creation order.
+pub(crate) fn drop_handler_in_order(
+	new: &mut std::collections::HashMap<
+		crate::Id,
+		(watchexec_supervisor::job::Job, tokio::task::JoinHandle<()>),
+	>,
+	extant: &mut std::collections::HashMap<crate::Id, watchexec_supervisor::job::Job>,
+) {
+	let mut v: Vec<_> = new.drain().collect();
+	v.sort_by_key(|(id, _)| id.verif_order());
+	for (_, (job, task)) in v {
+		task.abort();
+		drop(job);
+	}
+	drop(sort_jobs(extant));
+}
